@@ -339,6 +339,15 @@ def make_init(kind, values, dtype_name):
         return tuple(torch.tensor(v, dtype=_eff(dtype_name)) for v in values)
     if kind == "tensor1":
         return torch.tensor(values[0], dtype=_eff(dtype_name))
+    # integer-valued / integer-typed states (cast_state accepts int; with dtype=None an int stays int64)
+    if kind == "int":
+        return int(values[0])
+    if kind == "int_tuple":
+        return tuple(int(v) for v in values)
+    if kind == "int64":
+        return torch.tensor(int(values[0]))
+    if kind == "int64_tuple":
+        return tuple(torch.tensor(int(v)) for v in values)
     raise KeyError(kind)
 
 
@@ -474,6 +483,33 @@ def _rounding_hypothesis(block, names, dn):
     return any(_through_default(block[nm]) != float(block[nm]) for nm in names)
 
 
+class ParamSet:
+    """Parameters as handed to the implementation, built ONCE per block so that repeated calls
+    share the same tensor objects (documented: ``torch.Tensor or float``), with a snapshot to
+    decide afterwards that the caller's tensors are bitwise unchanged."""
+
+    def __init__(self, block, names, dn, init=None):
+        self.kw = _params_for_call(block, names, dn)
+        self.init = init
+        self.snap = {nm: v.clone() for nm, v in self.kw.items() if isinstance(v, torch.Tensor)}
+        it = init if isinstance(init, tuple) else ((init,) if isinstance(init, torch.Tensor) else ())
+        self.init_snap = [(i, v.clone()) for i, v in enumerate(it) if isinstance(v, torch.Tensor)]
+        self.init_t = it
+
+    def check_unchanged(self, ctx, site, block, call_no):
+        for nm, old in self.snap.items():
+            new = self.kw[nm]
+            if new.dtype != old.dtype or new.shape != old.shape or not torch.equal(new, old):
+                ctx.violation(site, "mutates_parameter_tensor:" + nm,
+                              f"{site}: the caller's tensor for {nm} was {float(old)!r} and is {float(new)!r} after call #{call_no + 1} "
+                              f"(parameters are documented as torch.Tensor or float)", observed=float(new), expected=float(old),
+                              block=_one_leaf(block))
+        for i, old in self.init_snap:
+            if not torch.equal(self.init_t[i], old):
+                ctx.violation(site, "mutates_init_state_tensor", f"{site}: init_state[{i}] changed from {old.tolist()} to {self.init_t[i].tolist()}",
+                              observed=self.init_t[i].tolist(), expected=old.tolist(), block=_one_leaf(block))
+
+
 @family
 def vasicek_tree(ctx, block):
     """block: x0 (None = default), kappa, theta, sigma, dt, depth, n, dtype, params_as, init, via"""
@@ -503,22 +539,22 @@ def vasicek_tree(ctx, block):
     init = None if x0 is None else make_init(block.get("init", "tuple"), [x0], dn)
     via = block.get("via", "function")
 
+    reps = block.get("repeat", 1)
+    ps_ = ParamSet(block, names, dn, init)
+    holder = {}
+
     def call():
         if via == "instrument":
-            from pfhedge.instruments import VasicekRate
-            st = VasicekRate(kappa=block["kappa"], theta=block["theta"], sigma=block["sigma"], dt=block["dt"], dtype=_tdtype(dn))
+            if "st" not in holder:
+                from pfhedge.instruments import VasicekRate
+                holder["st"] = VasicekRate(dt=ps_.kw["dt"], dtype=_tdtype(dn), **{nm: ps_.kw[nm] for nm in ("kappa", "theta", "sigma")})
+            st = holder["st"]
             st.simulate(n_paths=L, time_horizon=k * block["dt"], init_state=init)
             return st.spot
-        return ps.generate_vasicek(L, k + 1, init_state=init, dtype=_tdtype(dn), **_params_for_call(block, names, dn))
+        return ps.generate_vasicek(L, k + 1, init_state=init, dtype=_tdtype(dn), **ps_.kw)
 
     if via == "instrument":
         site = "VasicekRate.simulate"
-    out = call_owned(ctx, site, script, call, block, mini=_one_leaf(block))
-    ctx.add("states", tree.n_nodes()); ctx.add("transitions", tree.n_nodes() - 1)
-    ctx.add("traces_validated_against_impl", L)
-    ctx.tick(tree.n_nodes() if leaves is None else k + 1, nontrivial=(tree.n_nodes() - 1) if leaves is None else k)
-    if out is None or not check_shape(ctx, site, out, (L, k + 1), dn, block):
-        return
     eps = _eps(dn)
     zmax = max(abs(z) for z in zs)
     kd = block["kappa"] * block["dt"]
@@ -527,22 +563,35 @@ def vasicek_tree(ctx, block):
     th = abs(block["theta"])
     xr = abs(float(tree.state[0][0]))
     atol = 8 * eps * (k + 2) * (th + xr + (1 + 1 / kd) * sd * k * zmax) + 1e-300
-    first, worst = compare_levels(out, tree, anc, lambda s: s, lambda t, j, s: atol)
-    ctx.outcome((site, round(float(out.sum()), 9)))
-    if first is not None:
-        cls = "conformance_exact_ou_step"
-        if _rounding_hypothesis(block, names, dn):
-            alt = build({nm: _through_default(block[nm]) for nm in names})
-            f2, _ = compare_levels(out, alt, anc, lambda s: s, lambda t, j, s: atol)
-            if f2 is None:
-                cls = "float_params_rounded_through_default_dtype"
-        t, i, obs, exp, tol = first
-        ctx.violation(site, cls + ("_col0" if t == 0 and cls.startswith("conf") else ""),
-                      f"{site}: node at depth {t} differs from the exact OU transition (|diff|={abs(obs - exp):.3e} > tol {tol:.1e}; "
-                      f"x0={x0}, kappa={block['kappa']}, theta={block['theta']}, sigma={block['sigma']}, dt={block['dt']}, {dn}, "
-                      f"params as {block.get('params_as', 'float')})", observed=obs, expected=exp, block=leaf_block(block, anc, i))
-    else:
-        note_margin(ctx, site, worst)
+    for r in range(reps):
+        script = Script([{"site": "randn_like", "shape": (L, k + 1), "dtype": _eff(dn), "answer": Z}])
+        out = call_owned(ctx, site, script, call, block, mini=_one_leaf(block))
+        ctx.add("states", tree.n_nodes()); ctx.add("transitions", tree.n_nodes() - 1)
+        ctx.add("traces_validated_against_impl", L)
+        ctx.tick(tree.n_nodes() if leaves is None else k + 1, nontrivial=(tree.n_nodes() - 1) if leaves is None else k)
+        if out is None or not check_shape(ctx, site, out, (L, k + 1), dn, block):
+            return
+        ps_.check_unchanged(ctx, site, block, r)
+        first, worst = compare_levels(out, tree, anc, lambda s: s, lambda t, j, s: atol)
+        ctx.outcome((site, r, round(float(out.sum()), 9)))
+        if first is not None:
+            cls = "conformance_exact_ou_step"
+            if _rounding_hypothesis(block, names, dn):
+                alt = build({nm: _through_default(block[nm]) for nm in names})
+                f2, _ = compare_levels(out, alt, anc, lambda s: s, lambda t, j, s: atol)
+                if f2 is None:
+                    cls = "float_params_rounded_through_default_dtype"
+            t, i, obs, exp, tol = first
+            if cls.startswith("conf"):
+                cls += "_col0" if t == 0 else ("_repeated_call" if r > 0 else "")
+            ctx.violation(site, cls,
+                          f"{site}: call #{r + 1} with the same parameter objects: node at depth {t} differs from the exact OU transition "
+                          f"(|diff|={abs(obs - exp):.3e} > tol {tol:.1e}; "
+                          f"x0={x0}, kappa={block['kappa']}, theta={block['theta']}, sigma={block['sigma']}, dt={block['dt']}, {dn}, "
+                          f"params as {block.get('params_as', 'float')})", observed=obs, expected=exp, block=leaf_block(block, anc, i))
+            break
+        else:
+            note_margin(ctx, site, worst)
     if leaves is not None or _eff(dn) != torch.float64:
         return
     ka, th_, sg, dtm = (mpf(block[nm]) for nm in names)
@@ -580,6 +629,7 @@ def run(ctx):
         run_jumps(ctx)
         run_rbergomi(ctx)
         run_rest(ctx)
+        run_int_states(ctx)
     finally:
         ctx.run = real_run
     if ctx.quick:
@@ -642,6 +692,13 @@ def run_diffusions(ctx):
         ctx.run("vasicek_tree", dict(base, dtype=None, params_as="float", init="float"))
     ctx.run("vasicek_tree", {"x0": 0.25, "kappa": 2.0, "theta": 0.125, "sigma": 0.0625, "dt": 1 / 64, "depth": 2, "n": 5,
                              "dtype": "float64", "params_as": "float", "init": "tuple", "via": "instrument"})
+    # tensor-valued parameters (documented: torch.Tensor or float), the SAME tensor objects used for 3 calls:
+    # conformance at every call, and the caller's tensors bitwise unchanged
+    for dn_, via_ in (("float64", "function"), ("float32", "function"), (None, "function"), ("float64", "instrument"), (None, "instrument")):
+        ctx.run("vasicek_tree", {"x0": 0.1, "kappa": 1.0, "theta": 0.04, "sigma": 0.04, "dt": 1 / 250, "depth": 2, "n": 5, "dtype": dn_,
+                                 "params_as": "tensor", "init": "tensor", "repeat": 3, "via": via_})
+    ctx.run("vasicek_tree", {"x0": None, "kappa": 2.5, "theta": 0.0625, "sigma": 0.125, "dt": 1 / 16, "depth": 2, "n": 5, "dtype": "float64",
+                             "params_as": "float", "init": "tuple", "repeat": 3})
 
 
 # ----------------------------------------------------------------------------
@@ -745,42 +802,56 @@ def cir_tree(ctx, block):
     init = None if v0 is None else make_init(block.get("init", "tuple"), [v0], dn)
     via = block.get("via", "function")
 
+    reps = block.get("repeat", 1)
+    ps_ = ParamSet(block, names, dn, init)
+    holder = {}
+
     def call():
         if via == "instrument":
-            from pfhedge.instruments import CIRRate
-            st = CIRRate(kappa=block["kappa"], theta=block["theta"], sigma=block["sigma"], dt=block["dt"], dtype=_tdtype(dn))
+            if "st" not in holder:
+                from pfhedge.instruments import CIRRate
+                holder["st"] = CIRRate(dt=ps_.kw["dt"], dtype=_tdtype(dn), **{nm: ps_.kw[nm] for nm in ("kappa", "theta", "sigma")})
+            st = holder["st"]
             st.simulate(n_paths=L, time_horizon=k * block["dt"], init_state=init)
             return st.spot
-        return ps.generate_cir(L, k + 1, init_state=init, dtype=_tdtype(dn), **_params_for_call(block, names, dn))
+        return ps.generate_cir(L, k + 1, init_state=init, dtype=_tdtype(dn), **ps_.kw)
 
     if via == "instrument":
         site = "CIRRate.simulate"
-    out = call_owned(ctx, site, script, call, block, mini=_one_leaf(block))
     nn = tree.n_nodes()
-    ctx.add("states", nn); ctx.add("transitions", nn - 1); ctx.add("traces_validated_against_impl", L)
     tags = {g for lv in tree.tag[1:] for g in lv}
     both = int("Q" in tags and "E" in tags)
-    ctx.tick(nn if leaves is None else k + 1, nontrivial=(nn - 1) if leaves is None else k)
     for g in tags:
         ctx.add("qe_branch_" + g, sum(1 for lv in tree.tag[1:] for x in lv if x == g))
-    if out is None or not check_shape(ctx, site, out, (L, k + 1), dn, block):
-        return
-    first, worst = compare_levels(out, tree, anc, lambda s: s.v, lambda t, j, s: s.tolv)
-    ctx.outcome((site, round(float(out.sum()), 9), both))
-    if first is not None:
-        t, i, obs, exp, tol = first
-        j = int(anc[t][i])
-        cls = "conformance_qe_" + ({"Q": "quadratic", "E": "exponential", "E0": "exponential_atom", None: "col0"}[tree.tag[t][j]])
-        if _rounding_hypothesis(block, names, dn):
-            alt = build({nm: _through_default(block[nm]) for nm in names})
-            f2, _ = compare_levels(out, alt, anc, lambda s: s.v, lambda t, j, s: s.tolv)
-            if f2 is None:
-                cls = "float_params_rounded_through_default_dtype"
-        ctx.violation(site, cls, f"{site}: node at depth {t} differs from Andersen's QE step (|diff|={abs(obs - exp):.3e} > tol {tol:.1e}; "
-                      f"v0={v0}, kappa={block['kappa']}, theta={block['theta']}, sigma={block['sigma']}, dt={block['dt']}, {dn}, "
-                      f"params as {block.get('params_as', 'float')})", observed=obs, expected=exp, block=leaf_block(block, anc, i))
-    else:
-        note_margin(ctx, site, worst)
+    for r in range(reps):
+        script = Script([{"site": "randn_like", "shape": (L, k + 1), "dtype": _eff(dn), "answer": Z},
+                         {"site": "rand_like", "shape": (L, k + 1), "dtype": _eff(dn), "answer": U}])
+        out = call_owned(ctx, site, script, call, block, mini=_one_leaf(block))
+        ctx.add("states", nn); ctx.add("transitions", nn - 1); ctx.add("traces_validated_against_impl", L)
+        ctx.tick(nn if leaves is None else k + 1, nontrivial=(nn - 1) if leaves is None else k)
+        if out is None or not check_shape(ctx, site, out, (L, k + 1), dn, block):
+            return
+        ps_.check_unchanged(ctx, site, block, r)
+        first, worst = compare_levels(out, tree, anc, lambda s: s.v, lambda t, j, s: s.tolv)
+        ctx.outcome((site, r, round(float(out.sum()), 9), both))
+        if first is not None:
+            t, i, obs, exp, tol = first
+            j = int(anc[t][i])
+            cls = "conformance_qe_" + ({"Q": "quadratic", "E": "exponential", "E0": "exponential_atom", None: "col0"}[tree.tag[t][j]])
+            if r > 0:
+                cls += "_repeated_call"
+            if _rounding_hypothesis(block, names, dn):
+                alt = build({nm: _through_default(block[nm]) for nm in names})
+                f2, _ = compare_levels(out, alt, anc, lambda s: s.v, lambda t, j, s: s.tolv)
+                if f2 is None:
+                    cls = "float_params_rounded_through_default_dtype"
+            ctx.violation(site, cls, f"{site}: call #{r + 1} with the same parameter objects: node at depth {t} differs from Andersen's QE step "
+                          f"(|diff|={abs(obs - exp):.3e} > tol {tol:.1e}; "
+                          f"v0={v0}, kappa={block['kappa']}, theta={block['theta']}, sigma={block['sigma']}, dt={block['dt']}, {dn}, "
+                          f"params as {block.get('params_as', 'float')})", observed=obs, expected=exp, block=leaf_block(block, anc, i))
+            break
+        else:
+            note_margin(ctx, site, worst)
     if leaves is not None or _eff(dn) != torch.float64:
         return
     ka, th, sg, dtm = (mpf(block[nm]) for nm in names)
@@ -1042,6 +1113,10 @@ def run_cir_heston(ctx):
                              "dtype": None, "params_as": "float", "init": "tuple"})
     ctx.run("cir_tree", {"v0": 0.25, "kappa": 2.0, "theta": 1 / 16, "sigma": 1.0, "dt": 1 / 16, "depth": 2, "nz": 5, "nl": 6,
                          "dtype": "float64", "params_as": "float", "init": "tuple", "via": "instrument"})
+    for dn_, via_ in (("float64", "function"), ("float32", "function"), (None, "function"), ("float64", "instrument"), (None, "instrument")):
+        for (ka, th, sg, dt) in ((1.0, 0.04, 0.2, 1 / 250), (2.0, 1 / 16, 1.0, 1 / 16)):
+            ctx.run("cir_tree", {"v0": 0.01, "kappa": ka, "theta": th, "sigma": sg, "dt": dt, "depth": 2, "nz": 5, "nl": 6, "dtype": dn_,
+                                 "params_as": "tensor", "init": "tensor", "repeat": 3, "via": via_})
     # ---- Heston
     rhos = [-0.9, -0.3, 0.0, 0.7]
     rho_x = ctx.extra_symbol("rho", [-0.5, 0.25, 0.5, 0.9])
@@ -1220,7 +1295,11 @@ def kou_tree(ctx, block):
     zs, wz = _gh(block["nz"], dn)
     xl, wl = _gl(block["nl"])
     eta_up, eta_dn = 1 / mpf(up), 1 / mpf(down)
-    M_ = max(counts)
+    # 'hi_counts': jump counts above any plausible buffer cap.  The full (direction x size)^c product is out of reach
+    # there, so each such count is answered by two fixed patterns cycling through the one-jump alphabet (every slot a
+    # different answer): conformance only - the path must contain ALL the jumps drawn; no law weight is attached.
+    hi_counts = list(block.get("hi_counts", [])) if lam > 0 else []
+    M_ = max(counts + hi_counts)
     # one jump: direction atom (U < p => up) x Exp(1) quantile scaled by the mean; the unused size gets a junk value
     dirs = []
     if p > 0:
@@ -1252,6 +1331,16 @@ def kou_tree(ctx, block):
                     f = R.kou_step(1, mu, sigma, lam, p, eta_up, eta_dn, dt, z, ys)
                 factors.append(({"z": z, "c": float(c), "u": [s_[0] for s_ in slots], "eu": [s_[1] for s_ in slots],
                                  "ed": [s_[2] for s_ in slots]}, wc * w, f, c))
+
+    for c in hi_counts:
+        for shift in (0, 1):
+            combo = [one[(shift + 2 * i + i // len(one)) % len(one)] for i in range(c)]
+            slots = [x[0] for x in combo] + [pad] * (M_ - c)
+            ys = [x[2] for x in combo]
+            for z, w in zip(zs, wz):
+                f = R.kou_step(1, mu, sigma, lam, p, eta_up, eta_dn, dt, z, ys)
+                factors.append(({"z": z, "c": float(c), "u": [s_[0] for s_ in slots], "eu": [s_[1] for s_ in slots],
+                                 "ed": [s_[2] for s_ in slots]}, w / 2, f, ("pattern", c)))
 
     def children(st, t):
         return [(a, w, st * f, c) for a, w, f, c in factors]
@@ -1322,6 +1411,8 @@ def kou_tree(ctx, block):
         t, i, obs, exp, tol = first
         c_here = tree.tag[t][int(anc[t][i])] if t > 0 else None
         cls = "conformance_zero_intensity_gbm" if lam == 0 else ("conformance_no_jump_step" if not c_here else "conformance_jump_step")
+        if isinstance(c_here, tuple):
+            cls = "conformance_jump_step_many_jumps"
         ctx.violation(site, cls + ("_col0" if t == 0 else ""),
                       f"{site}: node at depth {t} differs from the exact solution (|diff|={abs(obs - exp):.3e} > tol {tol:.1e}; s0={s0}, mu={mu}, "
                       f"sigma={sigma}, lambda={lam}, up={up}, down={down}, p={p}, dt={dt}, {dn})", observed=obs, expected=exp,
@@ -1343,6 +1434,8 @@ def kou_tree(ctx, block):
             first_c, n_c = tree.kids[t][j]
             acc = {}
             for ch in range(first_c, first_c + n_c):
+                if isinstance(tree.tag[t + 1][ch], tuple):
+                    continue        # pattern answers carry no law weight
                 c = tree.tag[t + 1][ch]; w = tree.w[t + 1][ch]
                 a = acc.setdefault(c, [mpf(0), mpf(0)])
                 a[0] += w; a[1] += w * tree.state[t + 1][ch] / st
@@ -1395,6 +1488,18 @@ def run_jumps(ctx):
         ctx.run("kou_tree", dict(base, depth=3, counts=[0, 1], nz=3, nl=3 if q else 5, dtype="float64", init="tensor1", engine="default"))
         ctx.run("kou_tree", dict(base, depth=2, counts=[0, 2], nz=3, nl=2, dtype="float32", init="float", engine="default"))
         ctx.run("kou_tree", dict(base, depth=1, counts=[0, 1], nz=7, nl=8, dtype=None, init="tuple", engine="explicit"))
+    # jump counts above any plausible buffer cap, on daily and coarse grids: the path must contain ALL jumps drawn
+    ctx.alphabet("jump counts per step incl. large ones", [0, 1, 3, 13, 20, 40])
+    for dt in (1 / 250, 1 / 12, 1 / 4):
+        for dn_, via_ in (("float64", "function"), (None, "function"), ("float64", "instrument")):
+            if dn_ is None and dt == 1 / 12:
+                continue
+            ctx.run("kou_tree", {"s0": 1.5, "mu": 0.05, "sigma": 0.2, "lam": 68.0, "up": 0.02, "down": 0.05, "p": 0.5, "dt": dt, "depth": 2,
+                                 "counts": [0, 1], "hi_counts": [3, 13, 20, 40], "nz": 3, "nl": 3, "dtype": dn_, "init": "tuple",
+                                 "engine": "default", "via": via_})
+            ctx.run("merton_tree", {"s0": 1.5, "mu": 0.05, "sigma": 0.2, "lam": 68.2, "jm": -0.01, "js": 0.02, "dt": dt, "depth": 2,
+                                    "counts": [0, 1, 3, 13, 20, 40], "nz": 3, "nj": 3, "dtype": dn_, "init": "tuple", "engine": "default",
+                                    "via": via_})
     ctx.run("kou_tree", {"s0": 1.0, "mu": 0.0, "sigma": 0.2, "lam": 68.0, "up": 0.02, "down": 0.05, "p": 0.5, "dt": 1 / 250, "depth": 0,
                          "counts": [0], "nz": 3, "nl": 3, "dtype": "float64", "init": "tuple", "engine": "default"})
     ctx.run("kou_tree", {"s0": 1.25, "mu": 0.25, "sigma": 0.375, "lam": 12.0, "up": 0.125, "down": 0.25, "p": 0.25, "dt": 1 / 64, "depth": 2,
@@ -1459,7 +1564,7 @@ def rbergomi_impulse(ctx, block):
     script = Script([{"site": "mvn", "shape": (N, T1, 2), "dtype": _eff(dn), "answer": W,
                       "params": {"loc": [0.0, 0.0], "covariance_matrix": covf}},
                      {"site": "randn", "shape": (N, T1), "dtype": _eff(dn), "answer": B}])
-    init = None if v0 is None and s0 is None else (s_init, level)
+    init = None if v0 is None and s0 is None else make_init(block.get("init", "tuple"), [s_init, level], dn)
     via = block.get("via", "function")
 
     def call():
@@ -1568,7 +1673,10 @@ def rbergomi_impulse(ctx, block):
                          float(Y[r, i]), pred, r)
     # (h) log-return increments, given the implementation's own variance (independent of the kernel)
     sq = math.sqrt(dt)
-    for r in range(N):
+    # long series (n_steps > 60): the increments are decided on the zero row, the generic rows and the first/last
+    # impulse of every kind (the increment formula does not depend on which impulse row it is evaluated on)
+    lr_rows = range(N) if T <= 60 else [r for r, (kind, j) in enumerate(rows) if kind in ("zero", "g") or j in (0, T1 - 1)]
+    for r in lr_rows:
         for i in range(T1):
             v_i = float(var[r, i])
             want = R.rbergomi_logret(v_i, rho, float(W[r, i, 0]), mp.sqrt(mpf(dt)) * mpf(float(B[r, i])), dt)
@@ -1658,6 +1766,12 @@ def run_rbergomi(ctx):
     blocks.append({"n_steps": 6, "alpha": -0.4, "rho": -0.9, "eta": 1.9, "xi": 0.04, "s0": None, "v0": None, "dt": 1 / 250, "dtype": None})
     blocks.append({"n_steps": 5, "alpha": -0.25, "rho": 0.5, "eta": 1.5, "xi": 0.0625, "s0": 1.25, "v0": 0.0625, "dt": 1 / 4,
                    "dtype": "float64", "via": "instrument"})
+    # long series: every unit impulse, kernel matrix read column by column (causality, V(0) = xi, hybrid weights);
+    # (258, 1/257) and (366, 1/365) are one-year horizons, where the library's kernel must conform exactly
+    long_grid = [(258, 1 / 257), (300, 1 / 365), (366, 1 / 365)] + ([] if q else [(501, 1 / 500)])
+    ctx.alphabet("rough Bergomi long series (n_steps, dt)", [list(g) for g in long_grid])
+    for (T, dt) in long_grid:
+        blocks.append({"n_steps": T, "alpha": -0.4, "rho": -0.9, "eta": 1.9, "xi": 0.04, "s0": None, "v0": None, "dt": dt, "dtype": "float64"})
     for b in blocks:
         ctx.run("rbergomi_impulse", b)
 
@@ -1672,7 +1786,39 @@ SIGMA_FNS = {
     "spot_dependent": (lambda t, s: 0.125 + 0.25 * s, lambda t, s: mpf("0.125") + mpf("0.25") * s),
     "time_dependent": (lambda t, s: 0.5 / (1 + 4 * t) + 0 * s, lambda t, s: mpf("0.5") / (1 + 4 * t)),
     "smile": (lambda t, s: 0.2 + 0.3 * (s - 1).abs(), lambda t, s: mpf("0.2") + mpf("0.3") * abs(s - 1)),
+    # high volatility: with a coarse grid 1 + sigma sqrt(dt) z < 0 for the outer answers (the documented Euler
+    # scheme then produces a negative spot; the tree must still conform and stay an exact martingale)
+    "smile_high": (lambda t, s: 0.75 + 0.5 * (s - 1).abs(), lambda t, s: mpf("0.75") + mpf("0.5") * abs(s - 1)),
 }
+LV_LIPSCHITZ = 1.0   # bound on |d sigma / d S| of every function above (0.25, 0.3, 0.5)
+
+
+def sigma_functions(name):
+    """(torch, mpmath) versions; 'flat:<x>' is the constant volatility x (dyadic x: exact in every dtype)."""
+    if name.startswith("flat:"):
+        x = float(name[5:])
+        return (lambda t, s: torch.full_like(s, x)), (lambda t, s: mpf(x))
+    return SIGMA_FNS[name]
+
+
+def lv_tolerances(tree, f_m, dt, eps):
+    """Absolute tolerance of the float Euler recursion at every node, first order:
+    S' = S (1 + a z), a = sigma(t,S) sqrt(dt).  The parent's error e is multiplied by |1 + a z| and, through
+    sigma(t,S), by |S| L sqrt(dt) |z|; forming 1 + a z and the product adds a few ulp of |S| (1 + |a z|)
+    (absolute: near 1 + a z = 0 the result is small but its error is not)."""
+    sq = math.sqrt(float(dt))
+    tol = [[eps * abs(float(tree.state[0][0]))]]
+    for t in range(tree.depth):
+        row = []
+        for c, st in enumerate(tree.state[t + 1]):
+            j = tree.parent[t + 1][c]
+            sp = abs(float(tree.state[t][j]))
+            z = abs(tree.ans[t + 1][c]["z"])
+            a = float(f_m(mpf(t) * mpf(dt), tree.state[t][j])) * sq
+            growth = abs(float(st)) / sp if sp > 0 else 0.0
+            row.append(tol[t][j] * (growth + sp * LV_LIPSCHITZ * sq * z) + 16 * eps * sp * (1 + abs(a) * z))
+        tol.append(row)
+    return tol
 
 
 @family
@@ -1682,7 +1828,7 @@ def localvol_tree(ctx, block):
     import pfhedge.stochastic as ps
     site = "generate_local_volatility_process"
     dn, k, s0, dt = block["dtype"], block["depth"], block["s0"], block["dt"]
-    f_t, f_m = SIGMA_FNS[block["sigma_fn"]]
+    f_t, f_m = sigma_functions(block["sigma_fn"])
     if block["answers"] == "pm1":
         zs, ws = [-1.0, 1.0], [mpf(1) / 2, mpf(1) / 2]
     else:
@@ -1725,9 +1871,9 @@ def localvol_tree(ctx, block):
         return
     eps = _eps(dn)
     zmax = max(abs(z) for z in zs)
-    # product of k factors (1 + sigma sqrt(dt) z), each with a few roundings; sigma_fn adds a few more
-    rt = 16 * eps * (k + 1) * (1 + math.sqrt(dt) * zmax)
-    tol_s = lambda t, j, s: rt * abs(float(s)) * (1 + t)
+    tols = {id(tree): lv_tolerances(tree, f_m, dt, eps)}
+    tol_of = lambda tr: (lambda t, j, s: tols[id(tr)][t][j])
+    tol_s = tol_of(tree)
     first, worst = compare_levels(spot, tree, anc, lambda s: s, tol_s)
     ctx.outcome((site, round(float(spot.sum()), 9)))
     used = tree
@@ -1738,7 +1884,8 @@ def localvol_tree(ctx, block):
             # hypothesis: sqrt(dt) evaluated in the default dtype
             sq32 = float(torch.tensor(dt).sqrt())
             alt = build(mpf(sq32) ** 2)
-            f2, _ = compare_levels(spot, alt, anc, lambda s: s, tol_s)
+            tols[id(alt)] = lv_tolerances(alt, f_m, dt, eps)
+            f2, _ = compare_levels(spot, alt, anc, lambda s: s, tol_of(alt))
             if f2 is None:
                 cls, used = "sqrt_dt_rounded_through_default_dtype", alt
         ctx.violation(site, cls, f"{site}: node at depth {t} differs from the Euler step S(1 + sigma(t,S) sqrt(dt) Z) "
@@ -1748,7 +1895,7 @@ def localvol_tree(ctx, block):
         note_margin(ctx, site, worst)
     if first is None or used is not tree:
         # volatility output: sigma(t_i, S_i) at every node including the leaves
-        tv = lambda t, j, s: 16 * eps * (k + 2) * (1 + t) * (1 + abs(float(s))) * 0.5
+        tv = lambda t, j, s: 8 * eps * (1 + abs(float(s))) + LV_LIPSCHITZ * tols[id(used)][t][j]
         f4, _ = compare_levels(vol, _VolView(used, f_m, dt), anc, lambda s: s, tv)
         if f4 is not None:
             t, i, obs, exp, tol = f4
@@ -1946,6 +2093,17 @@ def run_rest(ctx):
         ctx.run("localvol_tree", {"sigma_fn": name, "s0": 1.0, "dt": 1 / 250, "depth": 2, "answers": "gh5", "dtype": None, "init": "tuple"})
     ctx.run("localvol_tree", {"sigma_fn": "spot_dependent", "s0": 1.5, "dt": 1 / 64, "depth": 2, "answers": "gh5", "dtype": "float64",
                               "init": "tuple", "via": "instrument"})
+    # sigma*sqrt(dt) in {0.4, 0.6, 1.0} (80%, 120%, 200% volatility on a quarterly grid) and a high smile:
+    # the outer Gauss-Hermite answers make 1 + sigma sqrt(dt) z negative (z < -2.5, -1.67, -1) and +-1 reaches 0
+    ctx.alphabet("local volatility sigma*sqrt(dt) on the coarse grid", [0.4, 0.6, 1.0, "smile_high: 0.375 + 0.25|S-1|"])
+    for name in ("flat:0.8", "flat:1.2", "flat:2.0", "smile_high"):
+        for s0 in (1.5, s_x):
+            ctx.run("localvol_tree", {"sigma_fn": name, "s0": s0, "dt": 1 / 4, "depth": depth, "answers": "gh7" if q else "gh9",
+                                      "dtype": "float64", "init": "tuple"})
+        ctx.run("localvol_tree", {"sigma_fn": name, "s0": 1.5, "dt": 1 / 4, "depth": depth, "answers": "pm1", "dtype": "float64", "init": "tensor"})
+        ctx.run("localvol_tree", {"sigma_fn": name, "s0": 1.5, "dt": 1 / 4, "depth": 2, "answers": "gh7", "dtype": "float32", "init": "float"})
+        ctx.run("localvol_tree", {"sigma_fn": name, "s0": 1.5, "dt": 1 / 4, "depth": 2, "answers": "gh7", "dtype": "float64", "init": "tuple",
+                                  "via": "instrument"})
     # antithetic: all permutations for n = 1..5 (6 in thorough: 720 permutations as well)
     ctx.alphabet("randn_antithetic n", [1, 2, 3, 4, 5] + ([] if q else [6]))
     for n in ([1, 2, 3, 4, 5] if q else [1, 2, 3, 4, 5, 6]):
@@ -1975,3 +2133,46 @@ def run_rest(ctx):
         for v in ((0.0, 0.04, 0.3) if q else (0.0, 1e-4, 0.04, 0.3)):
             for rho in ((-0.7, 0.7) if q else (-0.9, -0.3, 0.0, 0.7)):
                 ctx.run("derivations", {"kind": "qe_mgf", "kappa": ka, "theta": th, "sigma": sg, "dt": dt, "v": v, "rho": rho})
+
+
+def run_int_states(ctx):
+    """Integer-valued / integer-typed initial states (python int, tuple of int, int64 tensors) with dtype=None and
+    dtype given, for every generator and instrument whose init_state goes through cast_state."""
+    ctx.alphabet("integer initial states", ["python int", "tuple of int", "0-dim int64 tensor", "tuple of int64 tensors"])
+    for dn in (None, "float64"):
+        for kind in ("int", "int_tuple", "int64", "int64_tuple"):
+            two = kind if kind.endswith("tuple") else kind + "_tuple"     # two-component states are tuples
+            for gen in ("brownian", "geometric"):
+                ctx.run("bm_tree", {"gen": gen, "s0": 100, "mu": 0.25, "sigma": 0.5, "dt": 1 / 16, "depth": 2, "n": 3, "dtype": dn,
+                                    "init": kind, "engine": "default"})
+            ctx.run("vasicek_tree", {"x0": 2, "kappa": 2.0, "theta": 0.125, "sigma": 0.25, "dt": 1 / 16, "depth": 2, "n": 3, "dtype": dn,
+                                     "params_as": "float", "init": kind})
+            ctx.run("cir_tree", {"v0": 2, "kappa": 2.0, "theta": 0.125, "sigma": 0.5, "dt": 1 / 16, "depth": 2, "nz": 3, "nl": 3, "dtype": dn,
+                                 "params_as": "float", "init": kind})
+            ctx.run("merton_tree", {"s0": 100, "mu": 0.25, "sigma": 0.5, "lam": 8.0, "jm": -0.125, "js": 0.25, "dt": 1 / 16, "depth": 2,
+                                    "counts": [0, 1, 2], "nz": 3, "nj": 3, "dtype": dn, "init": kind, "engine": "default"})
+            ctx.run("kou_tree", {"s0": 100, "mu": 0.25, "sigma": 0.5, "lam": 8.0, "up": 0.125, "down": 0.25, "p": 0.25, "dt": 1 / 16, "depth": 2,
+                                 "counts": [0, 1], "nz": 3, "nl": 2, "dtype": dn, "init": kind, "engine": "default"})
+            ctx.run("localvol_tree", {"sigma_fn": "spot_dependent", "s0": 2, "dt": 1 / 16, "depth": 2, "answers": "gh3", "dtype": dn, "init": kind})
+            ctx.run("heston_tree", {"s0": 100, "v0": 1, "kappa": 2.0, "theta": 1 / 16, "sigma": 0.5, "rho": -0.5, "dt": 1 / 64, "depth": 2,
+                                    "nz": 3, "nl": 3, "ns": 3, "dtype": dn, "init": two})
+            ctx.run("rbergomi_impulse", {"n_steps": 5, "alpha": -0.25, "rho": 0.5, "eta": 1.5, "xi": 0.0625, "s0": 100, "v0": 1, "dt": 1 / 4,
+                                         "dtype": dn, "init": two})
+        # instruments with integer states
+        for kind in ("int_tuple", "int64_tuple"):
+            ctx.run("bm_tree", {"gen": "geometric", "s0": 100, "mu": 0.25, "sigma": 0.5, "dt": 1 / 16, "depth": 2, "n": 3, "dtype": dn,
+                                "init": kind, "engine": "default", "via": "instrument"})
+            ctx.run("vasicek_tree", {"x0": 2, "kappa": 2.0, "theta": 0.125, "sigma": 0.25, "dt": 1 / 16, "depth": 2, "n": 3, "dtype": dn,
+                                     "params_as": "float", "init": kind, "via": "instrument"})
+            ctx.run("cir_tree", {"v0": 2, "kappa": 2.0, "theta": 0.125, "sigma": 0.5, "dt": 1 / 16, "depth": 2, "nz": 3, "nl": 3, "dtype": dn,
+                                 "params_as": "float", "init": kind, "via": "instrument"})
+            ctx.run("merton_tree", {"s0": 100, "mu": 0.25, "sigma": 0.5, "lam": 8.0, "jm": -0.125, "js": 0.25, "dt": 1 / 16, "depth": 2,
+                                    "counts": [0, 1], "nz": 3, "nj": 3, "dtype": dn, "init": kind, "engine": "default", "via": "instrument"})
+            ctx.run("kou_tree", {"s0": 100, "mu": 0.25, "sigma": 0.5, "lam": 8.0, "up": 0.125, "down": 0.25, "p": 0.25, "dt": 1 / 16, "depth": 2,
+                                 "counts": [0, 1], "nz": 3, "nl": 2, "dtype": dn, "init": kind, "engine": "default", "via": "instrument"})
+            ctx.run("localvol_tree", {"sigma_fn": "spot_dependent", "s0": 2, "dt": 1 / 16, "depth": 2, "answers": "gh3", "dtype": dn,
+                                      "init": kind, "via": "instrument"})
+            ctx.run("heston_tree", {"s0": 100, "v0": 1, "kappa": 2.0, "theta": 1 / 16, "sigma": 0.5, "rho": -0.5, "dt": 1 / 64, "depth": 2,
+                                    "nz": 3, "nl": 3, "ns": 3, "dtype": dn, "init": kind, "via": "instrument"})
+            ctx.run("rbergomi_impulse", {"n_steps": 5, "alpha": -0.25, "rho": 0.5, "eta": 1.5, "xi": 0.0625, "s0": 100, "v0": 1, "dt": 1 / 4,
+                                         "dtype": dn, "init": kind, "via": "instrument"})
